@@ -40,6 +40,7 @@ RULE = (
     "pythonic templates: fingerprint(build()) == fingerprint(create_machine(json)); JSON templates: create_machine(json, "
     "generated logic) binds every name; second generation byte-identical and --check exits 0. Non-trivial = a config with "
     ">=2 levels of nesting and a guard/param/invoke/after construct, or a hostile name; distinct = distinct (config, options)."
+    ' Also: Regeneration and --check run under other PYTHONHASHSEED values than the first generation.'
 )
 ASSUMPTIONS = [
     "fingerprints compare structure (states, kinds, resolved targets, guard structure with params, actions with params, "
